@@ -503,6 +503,7 @@ func TestC08Stall(t *testing.T) {
 					go func() { time.Sleep(d); cancel() }()
 				}
 				defer cancel()
+				defer time.Sleep(time.Hour) // let helper goroutines finish inside the bubble
 				start := time.Now()
 				type res struct {
 					err error
